@@ -415,7 +415,7 @@ def eval_adaptive(case):
     if not stats_close(c.statistics, ent):
         out.append(V("statistics_added", f"stats|{sig}", case, "sums of combined data", stats_snap(c)))
     # the sum stays usable and independent: growing it must not touch the operands
-    c.fill(40 * w)
+    c.fill(case.get("offset", 0.0) + 40 * w)
     if snap(a) != sa or snap(b) != sb_:
         out.append(V("operands_untouched", f"operand_modified_after_fill|{sig}", case, "unchanged", diff(sa, snap(a)) or diff(sb_, snap(b))))
     return out
@@ -427,14 +427,21 @@ def eval_adaptive2d(case):
     out = []
     ws = case["w"]
 
-    def mk(rows):
+    wts = case.get("weights")
+
+    def mk(rows, first=0):
         if not rows:
             return h2(None, None, "fixed_width", bin_width=list(ws), adaptive=True)
         arr = np.array(rows, dtype=float)
-        return h2(arr[:, 0], arr[:, 1], "fixed_width", bin_width=list(ws), adaptive=True)
+        kw = {}
+        if wts:
+            kw["weights"] = np.array([wts[(first + i) % len(wts)] for i in range(len(rows))])
+        return h2(arr[:, 0], arr[:, 1], "fixed_width", bin_width=list(ws), adaptive=True, **kw)
 
     da, db = case["a"], case["b"]
-    a, b, u = mk(da), mk(db), mk(list(da) + list(db))
+    a, b, u = mk(da), mk(db, len(da)), mk(list(da) + list(db))
+    if wts and (float(a.missed) != 0 or float(b.missed) != 0):
+        return [V("nothing_lost", "adaptive2D|weighted|missed_residue", case, 0, [fl(a.missed), fl(b.missed)])]
     sa, sb_ = snap(a), snap(b)
     sig = f"adaptive2D|na={min(len(da), 1)}|nb={min(len(db), 1)}"
     res = call(lambda: a + b)
@@ -446,8 +453,37 @@ def eval_adaptive2d(case):
         out.append(V("adaptive_union", f"adaptive_vs_union|{sig}|{'+'.join(sorted(diff(cu, cc)))}", case, cu, cc))
     if snap(a) != sa or snap(b) != sb_:
         out.append(V("operands_untouched", f"operand_modified|{sig}", case, "unchanged", "changed"))
-    if content_snap(b + a) != cc:
-        out.append(V("commutative", f"commutative|{sig}", case, cc, content_snap(b + a)))
+    rev = call(lambda: b + a)
+    if not rev.ok:
+        out.append(V("commutative", f"commutative|{sig}|reverse_raises|{exc_sig(rev.exc)}", case, cc, rev.describe()))
+    elif content_snap(rev.value) != cc:
+        out.append(V("commutative", f"commutative|{sig}", case, cc, content_snap(rev.value)))
+    return out
+
+
+def eval_adaptive_missed(case):
+    """An adaptive operand that already carries weight outside its bins (built over a range): its sum with another adaptive
+    histogram cannot 'lose nothing' - refused from either side, or else equal to the histogram of the combined data."""
+    from physt import h1
+
+    side, other_data = case["side"], case["other"]
+    a = h1(np.array([0.5, 1.5, 5.5]), "fixed_width", bin_width=1.0, adaptive=True, range=(0, 3))
+    b = h1(np.array(other_data), "fixed_width", bin_width=1.0, adaptive=True)
+    sa, sb_ = snap(a), snap(b)
+    r1 = call(lambda: a + b)
+    r2 = call(lambda: b + a)
+    out = []
+    sig = f"adaptive_missed|{side}"
+    if r1.ok != r2.ok:
+        out.append(V("commutative", f"{sig}|one_order_refused", case, "both refused or both equal", {"a+b": r1.describe()[:80], "b+a": r2.describe()[:80]}))
+    for nm, r in (("a+b", r1), ("b+a", r2)):
+        if r.ok:
+            h = r.value
+            if float(h.total) + fl(h.underflow) + fl(h.overflow) != 3 + len(other_data) or (float(h.overflow) > 0 and h.bins[-1][1] > 5.5):
+                out.append(V("nothing_lost", f"{sig}|accepted_with_stale_overflow", case, "refused, or the value 5.5 inside the extended bins",
+                             {"order": nm, "bins": [float(h.bins[0][0]), float(h.bins[-1][1])], "overflow": fl(h.overflow), "total": fl(h.total)}))
+    if snap(a) != sa or snap(b) != sb_:
+        out.append(V("operands_untouched", f"{sig}|operand_modified", case, "unchanged", "changed"))
     return out
 
 
@@ -580,7 +616,13 @@ def units(tier, seed):
     for w in (1.0, 0.1, 0.3):
         for wa, wb in ((None, None), (None, 0.5), (2, 0.5)):
             us.append({"kind": "adaptive", "w": w, "wa": wa, "wb": wb})
+    # the same pairs far from the origin and on a very fine grid (bins must be told apart relative to their width),
+    # and operands that already carry missed weight (refused from either side)
+    for w, offset in ((1.0, 1.0e6), (1.0, -3.0e7), (1.0e-9, 0.0), (0.25, 1.7e9)):
+        us.append({"kind": "adaptive", "w": w, "wa": None, "wb": None, "offset": offset})
+    us.append({"kind": "adaptive_missed"})
     us.append({"kind": "adaptive2d", "w": [1.0, 0.3], "n": 2 if thorough else 1})
+    us.append({"kind": "adaptive2d", "w": [1.0, 0.3], "n": 1, "weights": [0.1, 0.3, 0.7]})
     nd = 6 if thorough else 4
     for k in range(3 if thorough else 2):
         us.append({"kind": "dask", "n": nd, "dataset": k})
@@ -646,15 +688,25 @@ def run_unit(unit, ctx):
         p.sample(case)
     elif kind == "adaptive":
         w = unit["w"]
-        vals = adaptive_values(w)
+        vals = [v + unit.get("offset", 0.0) for v in adaptive_values(w)]
         ds = list(datasets(vals, 2))
         for da, db in itertools.product(ds, repeat=2):
             case = {"w": w, "a": list(da), "b": list(db), "wa": unit["wa"], "wb": unit["wb"]}
+            if unit.get("offset"):
+                case["offset"] = unit["offset"]
             vs = eval_adaptive(case)
             p.states += 1
             p.transitions += 3
             p.traces += 1
             p.ev(bool(da) and bool(db) and (min(da) != min(db) or max(da) != max(db)))
+            p.extend(vs)
+        p.sample(case)
+    elif kind == "adaptive_missed":
+        for other in ([6.5], [0.5], [-2.5, 7.5], [2.5, 3.5]):
+            case = {"adaptive_missed": True, "side": "left_has_overflow", "other": other}
+            vs = eval_adaptive_missed(case)
+            p.ev(True)
+            p.states += 1
             p.extend(vs)
         p.sample(case)
     elif kind == "adaptive2d":
@@ -663,6 +715,8 @@ def run_unit(unit, ctx):
         ds = list(datasets(rows, unit["n"]))
         for da, db in itertools.product(ds, repeat=2):
             case = {"w": ws, "a": [list(r) for r in da], "b": [list(r) for r in db]}
+            if unit.get("weights"):
+                case["weights"] = unit["weights"]
             vs = eval_adaptive2d(case)
             p.ev(True)
             p.extend(vs)
@@ -693,6 +747,10 @@ def run_unit(unit, ctx):
 
 
 def replay(case):
+    if case.get("adaptive_missed"):
+        return eval_adaptive_missed(case)
+    if "w" in case and isinstance(case["w"], list):
+        return eval_adaptive2d(case)
     if "name" in case:
         return eval_refusal(case)
     if "chunks" in case:
